@@ -17,7 +17,7 @@ PROPERTY = "C13"
 LEVEL = "exploration"
 RULE = ("history = event sequence over {key-addressed operation (get, set, delete, incr, get_many, set_many) on a key "
         "owned by server i; clock advance by 0.5/1/1.5 retry_timeouts or 0.5/1/1+eps/2+eps dead_timeouts; server i starts "
-        "failing with ConnectionRefused / timeout / reset / OSError; server i heals} for 2-3 servers x retry_attempts "
+        "failing with ConnectionRefused / timeout / reset / OSError; server i heals} for 1-3 servers x retry_attempts "
         "0/1/2 x ignore_exc off/on (retry_timeout 1, dead_timeout 60). Two back-ends: scripted clients installed through "
         "client_class (each method call is a contact) and real Clients over the fake network (connect/sendall events "
         "grouped per public call are contacts). Bounded-exhaustive: every sequence up to depth 5 (thorough 6) over an "
@@ -317,9 +317,10 @@ def _run(case, hc, servers, names, owner, key_of, routes, world, env, clock):
     hist.append(("heal-all",))
     step = case.get("recovery_step", 0.9)
     keys = sorted(owner)
+    rec_op = case.get("recovery_op", "get")       # the traffic that has to bring the servers back: any key-addressed calls
     for i in range(int((2 * DT + 2) / step) + 2):
         clock.advance(step)
-        exc = do("get", keys[i % len(keys)])
+        exc = do(rec_op, keys[i % len(keys)])
         if exc is not None and (ie or not (isinstance(exc, MemcacheError) and "All servers" in str(exc))):
             V("exception-during-recovery", "with every server healthy, get raised %r" % (exc,))
     new, mark = _contacts_since(world, env, servers, mark)
@@ -355,7 +356,17 @@ def exhaustive_cases(tier, seed):
                     if 6 not in seq:
                         continue
                     yield {"servers": 2, "retry_attempts": ra, "ignore_exc": ie, "backend": "scripted", "recovery_step": 7,
-                           "events": [ALPHA[i] for i in seq]}
+                           "events": [ALPHA[i] for i in seq], "recovery_op": ("get", "set_many", "get_many")[(sum(seq) + d) % 3]}
+    # a rotation of exactly one server (it can become empty), same alphabet without the second server's key
+    alpha1 = [a for a in ALPHA if a != ["op", "get", 1]]
+    for ra in (0, 1, 2):
+        for ie in (False, True):
+            for d in range(1, depth + 1):
+                for seq in itertools.product(range(len(alpha1)), repeat=d):
+                    if 5 not in seq:
+                        continue
+                    yield {"servers": 1, "retry_attempts": ra, "ignore_exc": ie, "backend": "scripted", "recovery_step": 7,
+                           "events": [alpha1[i] for i in seq], "recovery_op": ("get", "set_many", "get_many")[(sum(seq) + d) % 3]}
 
 
 GAPS = [0.5, 1.5, 61]
@@ -374,7 +385,8 @@ def probe_train_cases(tier, seed):
                         ev = [["fail", 0, ("refused", "timeout", "reset", "oserror")[(n + ra) % 4]], ["op", opn, 0]]
                         for g in gaps:
                             ev += [["adv", GAPS[g]], ["op", opn, 0]]
-                        yield {"servers": 2, "retry_attempts": ra, "ignore_exc": ie, "backend": "scripted", "recovery_step": 7, "events": ev}
+                        yield {"servers": 2 if (n + ra) % 4 else 1, "retry_attempts": ra, "ignore_exc": ie, "backend": "scripted", "recovery_step": 7, "events": ev,
+                               "recovery_op": ("get", "set_many", "get_many")[(sum(gaps) + n) % 3]}
                         if n <= 5:
                             # the same train with the server healing in the middle and failing again at the end
                             h = n // 2
@@ -395,7 +407,7 @@ def history_strategy(tier):
         st.tuples(st.just("adv"), st.sampled_from([0.5, 1.0, 1.5, 30, 60, 61, 121])).map(list),
         st.tuples(st.just("fail"), st.integers(0, 2), st.sampled_from(sorted(ERR))).map(list),
         st.tuples(st.just("heal"), st.integers(0, 2)).map(list))
-    return st.fixed_dictionaries({"servers": st.sampled_from([2, 3]), "retry_attempts": st.sampled_from([0, 1, 2]), "ignore_exc": st.booleans(),
+    return st.fixed_dictionaries({"servers": st.sampled_from([1, 2, 2, 3]), "recovery_op": st.sampled_from(["get", "set_many", "get_many", "delete"]), "retry_attempts": st.sampled_from([0, 1, 2]), "ignore_exc": st.booleans(),
                                   "backend": st.sampled_from(["scripted", "scripted", "real"]), "events": st.lists(ev, min_size=1, max_size=40)})
 
 
